@@ -128,7 +128,7 @@ var props = map[string]*Prop{
 	},
 	"C11": {
 		Level: "model_checking",
-		Rule: "stateless exploration of the real stores under a controlled scheduler: store.go/json_store.go are rebuilt (overlay, derived from the working tree) against shims of sync and pebble whose acquisitions and database operations are scheduling points; 67 scenarios (1 reader x 1 writer for 4 scan calls x 5 writers; 1 reader x 2 writers; 2 readers x 1 writer; writers only; a probe that reaches the flipped signature through the fuzzy index only; MarkFalsePositive racing an update/delete/rebuild of the same ID, alone and under a scan) over writers that flip a signature between versions with different hashes, delete and re-add it, rebuild indexes, change threshold/tolerance, mark false positives, change only index values or only unindexed fields; all interleavings with <=2/<=1 preemptions (quick), unbounded for 1x1 and <=3 otherwise (thorough). Oracle: each reader result equals the same call run ALONE on a fresh store frozen in one committed state that existed during the call (states captured after every commit); after all threads finished: physical indexes consistent with the records, the final content equals some serial order of the writers' operations, and every scan of six probes equals brute force over the stored records. states = distinct reader outcomes, transitions = decision points, traces = executions (each is an implementation run). Non-trivial = scenario with >= 2 distinct reader outcomes.",
+		Rule: "stateless exploration of the real stores under a controlled scheduler: store.go/json_store.go are rebuilt (overlay, derived from the working tree) against shims of sync and pebble whose acquisitions and database operations are scheduling points; 78 scenarios (1 reader x 1 writer for 4 scan calls x 5 writers; 1 reader x 2 writers; 2 readers x 1 writer; writers only; a probe that reaches the flipped signature through the fuzzy index only; MarkFalsePositive racing an update/delete/rebuild of the same ID, alone and under a scan) over writers that flip a signature between versions with different hashes, delete and re-add it, rebuild indexes, change threshold/tolerance, mark false positives, change only index values or only unindexed fields; all interleavings with <=2/<=1 preemptions (quick), unbounded for 1x1 and <=3 otherwise (thorough). Oracle: each reader result equals the same call run ALONE on a fresh store frozen in one committed state that existed during the call (states captured after every commit); after all threads finished: physical indexes consistent with the records, the final content equals some serial order of the writers' operations, and every scan of six probes equals brute force over the stored records. states = distinct reader outcomes, transitions = decision points, traces = executions (each is an implementation run). Non-trivial = scenario with >= 2 distinct reader outcomes.",
 		Assumptions: []string{"Pebble is linearizable per call and its snapshots/iterators are isolated (trusted, not explored inside)", "data races are invisible to a cooperative scheduler: a separate free-running -race unit runs the same bodies (sampling, reported as such)", "Go's RWMutex writer preference is not modelled (more behaviours are allowed, none is lost)"},
 		Bounds:      map[string]string{"quick": "preemption bound 2 (1x1) / 1 (others)", "thorough": "unbounded (1x1) / preemption bound 3 (others), cap 400000 executions per scenario"},
 		Units: []Unit{
